@@ -104,7 +104,8 @@ def plan(prop, tier):
                   tri(2, 840, 3 if q else 1, 2)])],
         "C05": [("partition", {"C05"}, "any", "release",
                  [ops("five", ALLF, 300 if q else 3000, 3 if q else 4, 100 if q else 140), ops("five", "pinch,holefill,onion,teeth,pinch,lamina,hang,cxsplit,tshare,hang", 600 if q else 6000, 3, 120),
-                  enum("five", EN_RECT, 16 if q else 1), enum("five", EN_TRI, 512 if q else 16)])],
+                  enum("five", EN_RECT, 16 if q else 1), enum("five", EN_TRI, 512 if q else 16),
+                  ops("fwit", ROTF, 250 if q else 2500, 3, 120), ops("fwit32", ROTF, 100 if q else 1000, 3, 120)])],    # float operands: all four operations and a swapped call on one pair, judged at witness points
         "C06": [("algebra", {"C06"}, "any", "release",
                  [ops("five", ALLF, 200 if q else 2000, 3 if q else 4, 100 if q else 140),
                   ops("five", "teeth", 3000 if q else 20000, 3, 100),     # interlocking operands: cheap sessions, at volume
@@ -411,6 +412,9 @@ def run(prop, tier, seed, t0):
         k = 1 if tier == "quick" else 5
         scs += [("bool:stair:union", 100000 * k, 2048, "unopt"), ("bool:stair:int", 60000 * k, 1024, "unopt"), ("bool:steps:union", 30000 * k, 1024, "unopt"), ("bool:steps:xor", 20000 * k, 2048, "unopt"),
                 ("bool:hub:union", 20000 * k, 1024, "unopt"), ("bool:comb:int", 40000 * k, 512, "unopt"), ("bool:needles:diff", 30000 * k, 1024, "unopt"), ("bool:grid:union", 900 * k, 2048, "unopt")]
+        # deep nesting (result contours nested 2n levels: holes inside exteriors inside holes ...), with a closed-form result
+        # contract; in the optimised build with overflow checks (dbg), without optimisation (unopt) and in release
+        scs += [("bool:nest:union", 300 * k, 1024, "dbg"), ("bool:nest:xor", 400 * k, 2048, "unopt"), ("bool:nest:diff", 300 * k, 8192), ("bool:nest:int", 200 * k, 1024, "dbg")]
         scs += [c for c in combs if c[1] in (24, 100)]
         path = os.path.join(wd, "stack.ndjson")
         checks_splay.scenario(scs, path)
